@@ -154,7 +154,8 @@ def split_forms(text):
             return None      # another top-level key follows: not the expected shape
     if cur:
         chunks.append("\n".join(cur))
-    return chunks
+    # the last item is followed by the final newline of the stream: an item never ends in empty lines
+    return [c.rstrip("\n") for c in chunks]
 
 
 def parse_chunk(chunk):
